@@ -52,7 +52,7 @@ func init() {
 		spec := &mc.Spec{
 			Level: "model_checking",
 			Rule: "pinned-schedule enumeration on the implementation (shares the C10 model's gates): container — cancel before the call, inside the callback, with the host held at each named point of Execve (send/recv of execve, pid, ok; before the select), with the result held in flight, with the child ended but unreported, × program {never ends, exits 7} × sync {before, after} exec; " +
-				"tracer — cancel before Trace, with the child held before setsid, inside the callback, at every tracer step (each Debug call of the tracer loop and each handler call for the program's traced pause / exit_group, the handler returning at once or only after the kill has landed, answering allow or soft-ban); namespace runner — before Run, inside the callback, while the program runs; Destroy — while Execve / Open / Ping is in flight with a pump or the caller held at each host point, or with the container's reply withheld. " +
+				"tracer — cancel before Trace, with the child held before setsid, inside the callback, at every tracer step (each Debug call of the tracer loop and each handler call for the program's traced pause / exit_group, the handler returning at once or only after the kill has landed, answering allow, soft-ban, or — like a path policy — kill unless the name of a traced access(2) reads as expected); namespace runner — before Run, inside the callback, while the program runs; Destroy — while Execve / Open / Ping is in flight with a pump or the caller held at each host point, or with the container's reply withheld. " +
 				"Oracle: the call returns within the horizon with Time Limit Exceeded or the program's genuine verdict, never Runner Error / Disallowed Syscall; nothing of the run stays alive; after Destroy the in-flight call has returned and the init is gone. distinct = (runner, instant, program, observation)",
 			Bound:       map[string]any{"not_pinned": "instants strictly between two consecutive gates; the namespace runner's window between program exit and Run returning"},
 			Assumptions: []string{"gate granularity; the horizon (10 s) is three orders of magnitude above normal latency"},
@@ -177,7 +177,10 @@ type c11canceller struct {
 	cancel func()
 	landed bool
 	ban    bool
-	main   int32
+	// readPath: the handler decides like a path policy — it reads the name of a traced access(2) from the tracee and
+	// answers kill when that is not the expected name (a tracee killed under the handler reads as empty memory)
+	readPath string
+	main     int32
 }
 
 func (h *c11canceller) step() {
@@ -192,6 +195,12 @@ func (h *c11canceller) step() {
 
 func (h *c11canceller) Handle(c *ptracer.Context) ptracer.TraceAction {
 	h.step()
+	if h.readPath != "" {
+		if c.SyscallNo() == 21 /* access */ && c.GetString(uintptr(c.Arg0())) != h.readPath {
+			return ptracer.TraceKill
+		}
+		return ptracer.TraceAllow
+	}
 	if h.ban {
 		c.SetReturnValue(-int(syscall.EACCES))
 		return ptracer.TraceBan
@@ -216,7 +225,7 @@ var (
 )
 
 func c11Filter() seccomp.Filter {
-	c11filterOnce.Do(func() { c11filter = mustFilter(nil, []string{"pause", "exit_group"}, libseccomp.ActionAllow) })
+	c11filterOnce.Do(func() { c11filter = mustFilter(nil, []string{"pause", "exit_group", "access"}, libseccomp.ActionAllow) })
 	return c11filter
 }
 
@@ -232,10 +241,15 @@ func c11tracer(x *mc.X) {
 	if kind == "before-trace" || kind == "child-held-before-setsid" {
 		withSync = x.Bool("with-callback")
 	}
-	landed, ban := false, false
+	landed, ban, readPath := false, false, false
 	if kind == "at-tracer-step" {
 		landed = x.Bool("handler-returns-only-after-the-kill-landed")
-		ban = x.Bool("handler-soft-bans-traced-calls")
+		switch x.Pick("handler-verdict", "allow", "soft-ban", "kill-unless-the-path-reads-as-expected") {
+		case "soft-ban":
+			ban = true
+		case "kill-unless-the-path-reads-as-expected":
+			readPath = true
+		}
 	}
 	instant := kind
 	if k >= 0 {
@@ -247,6 +261,9 @@ func c11tracer(x *mc.X) {
 	if ban {
 		instant += "+ban"
 	}
+	if readPath {
+		instant += "+path-policy"
+	}
 	x.Note("instant", instant)
 	if x.Dry() {
 		return
@@ -255,6 +272,13 @@ func c11tracer(x *mc.X) {
 	argv := []string{probe("burn"), "pause", nonce}
 	if prog == "exit" {
 		argv = []string{probe("burn"), "exit", "7", nonce}
+	}
+	if readPath {
+		// the same two programs with one path system call (access of a name that is the nonce) in front
+		argv = []string{probe("burn"), "apause", nonce}
+		if prog == "exit" {
+			argv = []string{probe("burn"), "aexit", "7", nonce}
+		}
 	}
 	ctx, cancel := context.WithCancel(context.Background())
 	defer cancel()
@@ -269,6 +293,9 @@ func c11tracer(x *mc.X) {
 		}
 	}
 	h := &c11canceller{k: k, cancel: cancel, landed: landed, ban: ban}
+	if readPath {
+		h.readPath = nonce
+	}
 	t := ptracer.Tracer{Handler: h, Runner: ch, Limit: bigLimit}
 	var gateW *os.File
 	switch kind {
@@ -308,6 +335,9 @@ func c11tracer(x *mc.X) {
 	}
 	if ban {
 		cls += "+ban"
+	}
+	if readPath {
+		cls += "+path-policy"
 	}
 	c11judge(x, "tracer", cls, prog, res, returned, nonce)
 	x.Distinct(fmt.Sprint("tracer", instant, prog, withSync, res.Status))
